@@ -101,6 +101,10 @@ def analyse(res, obligations):
         else:
             p["verdict"] = "failed"
     # times per function
+    vcount = {}
+    for o in obligations:
+        if o.get("posed") and o.get("vname"):
+            vcount[o["vname"]] = vcount.get(o["vname"], 0) + 1
     try:
         for m in res["json"]["times-ms"]["smt"]["smt-run-module-times"]:
             for f in m.get("function-breakdown", []):
@@ -109,7 +113,8 @@ def analyse(res, obligations):
                     if o.get("posed") and o.get("vname") == nm:
                         per[o["id"]]["ms"] = f.get("time")
                         per[o["id"]]["rlimit"] = f.get("rlimit")
-                        per[o["id"]]["smt_success"] = f.get("success")
+                        if vcount.get(nm) == 1:  # several methods may share a name: attribute success only when unambiguous
+                            per[o["id"]]["smt_success"] = f.get("success")
     except Exception:
         pass
     ok_run = vr is not None and not vr.get("encountered-vir-error", False)
